@@ -405,6 +405,11 @@ class CallCx:
     def length(self, name: str) -> str:
         return self.ex.regions[self.args[name].region].length
 
+    def known(self, t: str) -> str:
+        """the literal value of an Int term when the current path has fixed it by a case split"""
+        k = self.ex.known.get(t)
+        return str(k) if k is not None else t
+
     def abs_bit(self, name: str, bit_off: str) -> str:
         """absolute bit position inside the region of pointer `name` for a bit offset relative to the pointer"""
         p = self.args[name]
@@ -591,7 +596,7 @@ class Exec:
             return Val(v.ct, "I", f"(bv2nat {v.t})")
         raise COutOfSubset(f"to_int of {type(v).__name__}")
 
-    def small_split(self, t: str, limit: int = 16) -> typing.Optional[int]:
+    def small_split(self, t: str, limit: int = 64) -> typing.Optional[int]:
         """If the Int term t is provably within [0, limit], enumerate its value (path split) and return it."""
         k = lit_of(t)
         if k is not None:
@@ -1339,22 +1344,24 @@ class Exec:
         return app(op, x.t, y.t)
 
     def arith(self, op: str, a: Val, b: Val, ct: CT) -> Val:
-        both_bv = a.rep == "B" and b.rep == "B" and lit_of(a.t) is None and lit_of(b.t) is None
-        if (a.rep == "B" and lit_of(a.t) is None and b.rep == "B") or (b.rep == "B" and lit_of(b.t) is None and a.rep == "B") or both_bv or \
-                ((a.rep == "B" or b.rep == "B") and not ct.index and ct.width < 64 and (lit_of(a.t) is not None or lit_of(b.t) is not None) and False):
+        a_bv = a.rep == "B" and lit_of(a.t) is None
+        b_bv = b.rep == "B" and lit_of(b.t) is None
+        if (a_bv or b_bv) and not ct.index:
+            # bit domain: exact machine arithmetic; signed overflow (UB) is checked by widening
             x, y = self.to_bv(a, ct.width), self.to_bv(b, ct.width)
             w = ct.width
             if op in ("/", "%"):
                 self.prove(Not(Eq(y.t, bvlit(0, w))), "safety", f"division-by-zero@{self.where}")
+                if ct.signed:
+                    self.prove(Not(And(Eq(x.t, bvlit(1 << (w - 1), w)), Eq(y.t, bvlit(-1, w)))), "safety", f"signed-overflow({op})@{self.where}")
                 sym = {"/": "bvsdiv" if ct.signed else "bvudiv", "%": "bvsrem" if ct.signed else "bvurem"}[op]
                 return Val(ct, "B", f"({sym} {x.t} {y.t})")
             sym = {"+": "bvadd", "-": "bvsub", "*": "bvmul"}[op]
             if ct.signed:
-                # signed overflow is undefined behaviour: check in the integers
-                xi, yi = self.to_int(x), self.to_int(y)
-                r = app(op, xi.t, yi.t)
-                lo, hi = self.range_of(ct)
-                self.prove(And(app("<=", str(lo), r), app("<=", r, str(hi))), "safety", f"signed-overflow({op})@{self.where}")
+                ext = w if op == "*" else 1
+                wide = f"({sym} ((_ sign_extend {ext}) {x.t}) ((_ sign_extend {ext}) {y.t}))"
+                narrow = f"((_ sign_extend {ext}) ((_ extract {w - 1} 0) {wide}))"
+                self.prove(Eq(wide, narrow), "safety", f"signed-overflow({op})@{self.where}")
             return Val(ct, "B", f"({sym} {x.t} {y.t})")
         x, y = self.to_int(a), self.to_int(b)
         lo, hi = self.range_of(ct)
